@@ -25,6 +25,9 @@ def accepted(s):
             and s["query"] in ("hit", "recover", "none", "padded") and s["limit"] in ("absent", "0", "1", "3", "100"))
 
 
+REPLAY = ("TraceCli", TRACE_CFG)
+
+
 def signature(ev):
     s = ev["sc"]
     if ev["crash"]:
